@@ -229,6 +229,9 @@ def obligations(tier):
                     add('%s.n2.%s.bodies.separate' % (role, tag), role=role, n=2, origins=ol, packing='separate', bodies=[True, True])
                     add('%s.n2.%s.bodies.together' % (role, tag), role=role, n=2, origins=ol, packing='together', bodies=[True, False])
                     if tag == 'same':
+                        # the first request's body is split over two reads and the read carrying its tail also carries the second request
+                        l1b = len(_req(role, 0, ol[0].encode(), 97, True))
+                        add('%s.n2.%s.bodycut' % (role, tag), role=role, n=2, origins=ol, packing=['cut', l1b - 1], bodies=[True, False])
                         # split anywhere: cut positions around the boundary between the two requests and inside each
                         l1 = len(_req(role, 0, ol[0].encode(), 97, False))
                         cuts = [5, l1 - 2, l1 - 1, l1 + 1, l1 + 3, l1 + 20] if tier == 'quick' else list(range(1, 2 * l1, 3))
